@@ -560,4 +560,24 @@ MUTANTS += [
     }
 
     _apply_runtime_metadata(transit_event);"""},
+    # ---------------- C15: the F8 fix (time rotation stays on its schedule) ----------------
+    {"id": "c15-revert-f8", "props": ["C15"], "file": "quill/sinks/RotatingSink.h",
+     "desc": "the F8 fix reverted for minutes/hours: next rotation point = triggering record + interval (the schedule drifts)",
+     "old": "_next_rotation_time = _calculate_rotation_tp(_next_rotation_time, record_timestamp_ns, _config);",
+     "new": "_next_rotation_time = _calculate_rotation_tp(record_timestamp_ns, record_timestamp_ns, _config);"},
+    {"id": "c15-daily-plus-24h", "props": ["C15"], "file": "quill/sinks/RotatingSink.h",
+     "desc": "the F8 fix reverted for the daily rotation: triggering record + 24 h",
+     "old": """      // the configured time of day, on the day of the record or on the next one
+      return _calculate_initial_rotation_tp(record_timestamp_ns, config);""",
+     "new": """      return record_timestamp_ns + static_cast<uint64_t>(std::chrono::nanoseconds{std::chrono::hours{24}}.count());"""},
+    {"id": "c15-daily-keeps-isdst", "props": ["C15"], "file": "quill/sinks/RotatingSink.h",
+     "desc": "daily time of day converted with the daylight-saving flag of the current instant (one hour off across a clock change)",
+     "old": """      // daylight saving time can be different at that time of day
+      date.tm_isdst = -1;
+    }""",
+     "new": """    }"""},
+    {"id": "c15-one-interval-only", "props": ["C15"], "file": "quill/sinks/RotatingSink.h",
+     "desc": "next point = previous scheduled point + ONE interval even when the record is several intervals late (burst of rotations after a gap)",
+     "old": "return scheduled_rotation_tp_ns + ((elapsed_intervals + 1) * interval_ns);",
+     "new": "return scheduled_rotation_tp_ns + interval_ns;"},
 ]
